@@ -138,33 +138,45 @@ Print Assumptions C22_use_okb_sound.
 (** every call of a scheduled handler made by TimeStepper::stepTo happens at that handler's own next event time (as it
     answered when the integrator was started from u_tcur), which is eligible (later than u_tcur, or equal when allowed),
     and the handler gets the advanced state at exactly that time *)
-Theorem C22_scheduled_called_exactly_at_time S ss thandlers flow reportAll time s orc st s' rest log uses :
+Theorem C22_scheduled_called_exactly_at_time S ss thandlers flow cf reportAll time s orc st s' rest log uses :
   ids_disjoint S ss ->
-  ts_stepTo S [ss] thandlers flow reportAll time s orc = TSRet S st s' rest log uses ->
+  ts_stepTo S cf [ss] thandlers flow reportAll time s orc = TSRet S st s' rest log uses ->
   (forall u, In u uses -> use_ok u) ->
   forall k, In k log -> k_cause k = CScheduled ->
   exists h u, In h (ss_handlers ss) /\ h_id h = k_id k /\ In u uses /\
      Ieq (h_next h (u_tcur u) (u_inclEv u)) (Some (k_time k)) /\
      eligible (u_tcur u) (u_inclEv u) (h_next h (u_tcur u) (u_inclEv u)) = true /\
      k_time k == a_tadv (u_ans u) /\ a_status (u_ans u) = ReachedScheduledEvent.
-Proof. exact (scheduled_called_exactly_at_time S ss thandlers flow reportAll time s orc st s' rest log uses). Qed.
+Proof. exact (scheduled_called_exactly_at_time S ss thandlers flow cf reportAll time s orc st s' rest log uses). Qed.
 Print Assumptions C22_scheduled_called_exactly_at_time.
 
-Theorem C22_reporters_called_exactly_at_time S ss thandlers flow reportAll time s orc st s' rest log uses :
+Theorem C22_reporters_called_exactly_at_time S ss thandlers flow cf reportAll time s orc st s' rest log uses :
   ids_disjoint S ss ->
-  ts_stepTo S [ss] thandlers flow reportAll time s orc = TSRet S st s' rest log uses ->
+  ts_stepTo S cf [ss] thandlers flow reportAll time s orc = TSRet S st s' rest log uses ->
   (forall u, In u uses -> use_ok u) ->
   forall k, In k log -> k_cause k = CReport ->
   exists r u, In r (ss_reporters ss) /\ h_id r = k_id k /\ In u uses /\
      Ieq (h_next r (u_tcur u) (u_inclRep u)) (Some (k_time k)) /\
      k_time k == a_t (u_ans u) /\ a_status (u_ans u) = ReachedReportTime.
-Proof. exact (reporters_called_exactly_at_time S ss thandlers flow reportAll time s orc st s' rest log uses). Qed.
+Proof. exact (reporters_called_exactly_at_time S ss thandlers flow cf reportAll time s orc st s' rest log uses). Qed.
 Print Assumptions C22_reporters_called_exactly_at_time.
 
 (** REFUTED at system level: with two subsystems owning scheduled events, System::Guts::calcTimeOfNextScheduledEventImpl
-    keeps the ids of a subsystem whose event is LATER than the one found afterwards (the clear() follows the assignment
-    it depends on), so a handler due at t=5 is listed for the event at t=3 *)
+    AS WRITTEN ([sys_next false]) keeps the ids of a subsystem whose event is LATER than the one found afterwards (the clear()
+    follows the assignment it depends on): a default-subsystem handler (id 0) due at t=1/2 is listed for the event of
+    another subsystem (id 1) at t=5/16 -- and TimeStepper then calls it there.  With the two statements in the intended
+    order ([sys_next true]) only id 1 is listed.  The witness is replayed on the implementation by the check. *)
 Theorem C22_sys_next_two_subsystems_refuted S :
-  sys_next S ss_handlers (w_subs S) 0 true = (Some 3, [0%nat; 1%nat]).
+  sys_next S false ss_handlers (w_subs S) 0 true = (Some (5#16), [0%nat; 1%nat]) /\
+  sys_next S false ss_handlers (w_subs S) (5#16) false = (Some (1#2), [0%nat]) /\
+  sys_next S true ss_handlers (w_subs S) 0 true = (Some (5#16), [1%nat]).
 Proof. exact (sys_next_two_subsystems_refuted S). Qed.
 Print Assumptions C22_sys_next_two_subsystems_refuted.
+
+(** same defect, second face: a handler with no further event (next time +Infinity) is listed for every later event of
+    another subsystem *)
+Theorem C22_sys_next_exhausted_handler_refuted S :
+  sys_next S false ss_handlers (w_subs2 S) (5#16) false = (Some (1#2), [0%nat; 1%nat]) /\
+  sys_next S true ss_handlers (w_subs2 S) (5#16) false = (Some (1#2), [1%nat]).
+Proof. exact (sys_next_exhausted_handler_refuted S). Qed.
+Print Assumptions C22_sys_next_exhausted_handler_refuted.
